@@ -1435,13 +1435,14 @@ def load_grammar(grammar, source, import_paths, global_keep_all_tokens):
     return builder.build(), builder.used_files
 
 
-def sha256_digest(s: str) -> str:
-    """Get the sha256 digest of a string
+def sha256_digest(s: Union[str, bytes]) -> str:
+    """Get the sha256 digest of a string (or of bytes)
 
     Supports the `usedforsecurity` argument for Python 3.9+ to allow running on
     a FIPS-enabled system.
     """
+    data = s.encode('utf8') if isinstance(s, str) else s
     if sys.version_info >= (3, 9):
-        return hashlib.sha256(s.encode('utf8'), usedforsecurity=False).hexdigest()
+        return hashlib.sha256(data, usedforsecurity=False).hexdigest()
     else:
-        return hashlib.sha256(s.encode('utf8')).hexdigest()
+        return hashlib.sha256(data).hexdigest()
